@@ -125,6 +125,14 @@ func (ex *Exec) intrinsic(caller *frame, fn *ssa.Function, args []value, pos tok
 			panic(pathKill{"verifConcretize: outside the stated range (implicit assumption)"})
 		}
 		return tc.Int64(lo + int64(k)), true
+	case "verifStub":
+		name := ex.constStr(args[0], "stub name")
+		var f value = args[1]
+		if itf, ok := f.(iface); ok {
+			f = itf.v
+		}
+		ex.stubs[name] = f
+		return nil, true
 	case "verifStop":
 		panic(pathDone{})
 	case "verifObserve":
